@@ -79,6 +79,8 @@ func expected(name string, k *cuworld.Kernel, g cuworld.Geometry) []byte {
 			out(uint32(l) + 3)
 			le.PutUint32(m[cuworld.Tmp+4*gid:], uint32(l)+2)
 			le.PutUint32(m[cuworld.Out2+4*gid:], uint32(l)+3)
+		case "k15_uncoalesced_64_lines_per_load":
+			out(in((l % 64) * 16))
 		case "k14_unawaited_scalar_load_into_wg_id_register":
 			if gid >= S {
 				out(uint32(l) + 9)
@@ -316,7 +318,7 @@ func main() {
 		r = harness.Start("C14", "model_checking")
 	}
 	ks := cuworld.LoadKernels(harness.Dir())
-	names := []string{"k1_lds_barrier", "k2_global_barrier", "k3_two_barriers", "k4_waitcnt_vm", "k5_waitcnt_lgkm", "k6_early_exit_before_barrier", "k7_late_exit_without_barrier", "k8_store_then_endpgm", "k9_exit_with_pending_store_while_others_wait", "k10_many_scalar_loads", "k11_many_stores", "k12_register_signature_survives_neighbour_exit", "k13_gather_sparse_then_dense_line", "k14_unawaited_scalar_load_into_wg_id_register"}
+	names := []string{"k1_lds_barrier", "k2_global_barrier", "k3_two_barriers", "k4_waitcnt_vm", "k5_waitcnt_lgkm", "k6_early_exit_before_barrier", "k7_late_exit_without_barrier", "k8_store_then_endpgm", "k9_exit_with_pending_store_while_others_wait", "k10_many_scalar_loads", "k11_many_stores", "k12_register_signature_survives_neighbour_exit", "k13_gather_sparse_then_dense_line", "k14_unawaited_scalar_load_into_wg_id_register", "k15_uncoalesced_64_lines_per_load"}
 
 	// --- the emulation CU as a second implementation: values and executed-PC sequences
 	type geo = cuworld.Geometry
@@ -359,6 +361,9 @@ func main() {
 					if g.WGSize*g.NumWG <= 128 || r.Thorough() && g.WGSize*g.NumWG <= 256 {
 						bound = 2
 					}
+					if strings.HasPrefix(n, "k15_") && bound > 1 {
+						bound = 1 // 64 transactions per wavefront: the choice vector is long
+					}
 					o := cuworld.TimingOpts{Scoreboard: sb, Resident: res, Delays: []int{9, 60}}
 					scs = append(scs, harness.Scenario{
 						Name:  fmt.Sprintf("%s/wg%dx%d/scoreboard=%v/resident%d", n, g.WGSize, g.NumWG, sb, res),
@@ -394,6 +399,9 @@ func main() {
 		{"k4_waitcnt_vm", geo{512, 2}, 0, 40, 0, 0},
 		{"k2_global_barrier", geo{256, 2}, 0, 25, 0, 0},
 		{"k10_many_scalar_loads", geo{256, 2}, 25, 25, 12, 0},
+		// more than 512 vector transactions in flight: 16 wavefronts x 64 lines each against a slow memory
+		{"k15_uncoalesced_64_lines_per_load", geo{512, 2}, 0, 20, 0, 0},
+		{"k15_uncoalesced_64_lines_per_load", geo{1024, 1}, 0, 8, 0, 0},
 		{"k3_two_barriers", geo{256, 2}, 0, 0, 12, 0},
 	} {
 		b := sl.b
